@@ -9,6 +9,7 @@ import (
 	"github.com/fiorix/go-diameter/diam/sm"
 
 	"github.com/free5gc/chf/internal/logger"
+	"github.com/free5gc/chf/internal/verifhook"
 	"github.com/free5gc/openapi/models"
 	"github.com/free5gc/openapi/oauth"
 	"github.com/free5gc/util/idgenerator"
@@ -74,12 +75,14 @@ func (context *CHFContext) NewCHFUe(supi string) (*ChfUe, error) {
 		return ue, nil
 	}
 	if strings.HasPrefix(supi, "imsi-") {
+		verifhook.At("uepool.miss", "supi", supi)
 		ue := ChfUe{}
 		ue.init()
 
 		if supi != "" {
 			context.AddChfUeToUePool(&ue, supi)
 		}
+		verifhook.At("uepool.stored", "supi", supi, "ue", &ue)
 
 		return &ue, nil
 	} else {
